@@ -32,6 +32,8 @@ mkdir -p "$GEN/htp"
 if [ -f "$REPO/htp_config_auto_gen.h" ]; then cp "$REPO/htp_config_auto_gen.h" "$GEN/"; else
 cat > "$GEN/htp_config_auto_gen.h" <<EOF
 #define HAVE_DLFCN_H 1
+#define HAVE_ICONV 1
+#define ICONV_CONST
 #define HAVE_INTTYPES_H 1
 #define HAVE_LIBZ 1
 #define HAVE_STDINT_H 1
